@@ -12,14 +12,17 @@ Inductive sev := SvT | SvE | SvX (frame : list N) | SvP.
 Inductive atev :=
 | ATx (c : tx_config) (frame : list N) | ASetupRx (rf : rf_config) (single : option N) | ARxSingle | ARxCont | ARxContPending | ALowPower
 | ATimerReset | ATimerAt (ms : N) | AFault (what : atev) | AScriptErr (continuous : bool).
-Record env := { e_script : list sev; e_calls : N; e_fault : option N; e_trace : list atev (* most recent first *) }.
+(* e_fault = Some (k, n): the radio calls number k .. k+n-1 of the line fail (one failing call, or an outage of several calls in a row) *)
+Record env := { e_script : list sev; e_calls : N; e_fault : option (N * N); e_trace : list atev (* most recent first *) }.
 
 Definition tr (e : env) (t : atev) : env := {| e_script := e_script e; e_calls := e_calls e; e_fault := e_fault e; e_trace := t :: e_trace e |}.
-(* a radio call: the k-th call of the line fails when k is the fault position *)
+Definition faulty (e : env) : bool :=
+  match e_fault e with Some (k, n) => (k <=? e_calls e) && (e_calls e <? k + n) | None => false end.
+(* a radio call: it fails when its number lies in the fault range *)
 Definition call (e : env) (what : atev) : env * bool :=
   let n := e_calls e in
   let e1 := {| e_script := e_script e; e_calls := n + 1; e_fault := e_fault e; e_trace := e_trace e |} in
-  if match e_fault e with Some k => k =? n | None => false end then (tr e1 (AFault what), false) else (tr e1 what, true).
+  if faulty e then (tr e1 (AFault what), false) else (tr e1 what, true).
 Definition pop (e : env) : option sev * env :=
   match e_script e with
   | [] => (None, e)
